@@ -1,5 +1,6 @@
 import Iec.Lemmas.Srv104
 import Iec.Model.Cli104
+import Iec.Gen.Consts104
 /-
 C03 — CS104 wire format and send/receive sequence numbering are exact.
 
@@ -177,5 +178,12 @@ theorem client_u_frames : WellFormed Iec.Cli104.STARTDT_ACT ∧ WellFormed Iec.C
   unfold WellFormed; decide
 
 end Client
+
+/-- the four fixed U-format frames of the model are the arrays in the compiled source, and the length limits are the
+source's (translator tie, regenerated on every run) -/
+theorem u_frames_match_source :
+    STARTDT_CON = Iec.Gen.startdtCon ∧ STOPDT_CON = Iec.Gen.stopdtCon ∧ TESTFR_CON = Iec.Gen.testfrCon ∧
+    TESTFR_ACT = Iec.Gen.testfrAct ∧ Iec.Gen.apciLength = 6 ∧ Iec.Gen.maxAsduLength = 249 := by
+  decide
 
 end Iec.Props.C03
